@@ -5,6 +5,7 @@ from ..cfg import cfg_of
 from ..model import norm, walk_own
 from ..rules_codec import codec_peewee, codec_sqlite
 from ..rules_own import own_rules
+from ..rules_read import pred_memory, pred_peewee, pred_sqlite
 from ..rules_store import ddl_facts, idalloc_memory, is_param_ref
 
 
@@ -46,6 +47,12 @@ def check(prog, rep):
     ddl_facts(prog, rep)
     idalloc_memory(prog, rep)
     bucket_insert(prog, rep)
+    # listing without a window returns every stored event: the window predicate is neutral when no edge is given
+    # (for every instant a datetime can hold) and is the inclusive intersection when one is
+    rep.rule("PRED", "the listing's window predicate is ev.start <= w.end and w.start <= ev.start + ev.dur, each conjunct applied only when its edge is given; an absent edge binds a value that excludes no representable instant")
+    pred_memory(prog, rep)
+    pred_sqlite(prog, rep)
+    pred_peewee(prog, rep)
 
 
 SQ = "aw_datastore/storages/sqlite.py"
@@ -72,6 +79,8 @@ VARIANTS = [
     ("B peewee json emits duration as Decimal", PW, '            "duration": float(self.duration),', '            "duration": self.duration,', "CODEC"),
     ("B memory id from the event count", ME, "                event.id = max(int(e.id or 0) for e in self.db[bucket]) + 1", "                event.id = len(self.db[bucket])", "IDALLOC"),
     ("B Bucket.insert returns the caller's event", DS, "            inserted = self.ds.storage_strategy.insert_one(self.bucket_id, events)", "            self.ds.storage_strategy.insert_one(self.bucket_id, events)\n            inserted = events", "INSERT-PATHS"),
+    ("B upper sentinel is the 32-bit unix maximum (events after 2038 vanish from unbounded listings)", SQ, "MAX_TIMESTAMP = 2**63 - 1", "MAX_TIMESTAMP = (2**31 - 1) * 1000000", "PRED"),
+    ("OK upper sentinel is year 9999 in microseconds", SQ, "MAX_TIMESTAMP = 2**63 - 1", "MAX_TIMESTAMP = 253402300800 * 1000000", "ok"),
     ("OK deepcopy imported by name", ME, "        return copy.deepcopy(events)", "        from copy import deepcopy\n\n        return deepcopy(events)", "ok"),
     ("OK metadata rebuilt from deep copies", ME, "            return copy.deepcopy(self._metadata[bucket_id])", "            return {k: copy.deepcopy(v) for k, v in self._metadata[bucket_id].items()}", "ok"),
     ("OK locals renamed in the sqlite writer", SQ, "    def replace_last(self, bucket_id, event):\n        starttime = event.timestamp.timestamp() * 1000000\n        endtime = starttime + (event.duration.total_seconds() * 1000000)\n        datastr = json.dumps(event.data)", "    def replace_last(self, bucket_id, event):\n        t0 = event.timestamp.timestamp() * 1000000\n        starttime = t0\n        endtime = t0 + (event.duration.total_seconds() * 1000000)\n        datastr = json.dumps(event.data)", "ok"),
